@@ -80,6 +80,17 @@ def correspond(ctx, scale):
         ev += 1
         dist['vq_jacobians'] += 1
         nt += rot
+        # per-call option `indices=` (cross-entropy to target codes): the quantized output and its Jacobian are the same as without it
+        if heads == 1 and ci % 2 == 0:
+            try:
+                tgt = torch.randint(0, K, (b, nn_))
+                J2 = jacobian(lambda inp: vq(inp, indices=tgt, freeze_codebook=True)[0], x)
+                dist['jacobians_with_target_indices'] = dist.get('jacobians_with_target_indices', 0) + 1
+                if not torch.allclose(J, J2, atol=1e-6, rtol=1e-5):
+                    fail('vq:jacobian-changes-with-target-indices', f'VectorQuantize({kw}): passing indices= changes d out / d x (max diff {(J - J2).abs().max().item():.3g}; '
+                         f'with indices the Jacobian has max |entry| {J2.abs().max().item():.3g})', dict(kw=kw))
+            except Exception as ex:
+                fail(f'vq:indices-call:exception:{type(ex).__name__}', f'VectorQuantize({kw}) with indices=: {ex!r}', dict(kw=kw))
         D = d * heads
         # cross-position blocks vanish exactly
         for b1 in range(b):
